@@ -16,11 +16,12 @@ type ln struct {
 var tabMode = 0 // 0 all, 1 only runs starting at column 0, 2 only runs right after '>', 3 only runs right after a list marker
 
 type Z struct {
-	s       Src
-	tabs    bool
-	lazy    bool
-	extra   bool // allow 0-3 extra indentation
-	choices map[string]int
+	forceSpaceHard bool
+	s              Src
+	tabs           bool
+	lazy           bool
+	extra          bool // allow 0-3 extra indentation
+	choices        map[string]int
 }
 
 func (z *Z) note(k string) {
@@ -118,13 +119,18 @@ func (z *Z) inl(in []Inline) string {
 			sb.WriteString(v.S)
 		case Soft:
 			sb.WriteString(sp(z.s.Intn(2)) + "\n") // zero or one trailing space: still a soft break
+		case BS:
+			sb.WriteString("\\")
+			z.forceSpaceHard = true
+			z.note("literal-backslash-before-hard-break")
 		case Hard:
-			if coin(z.s, 1, 2) {
+			if !z.forceSpaceHard && coin(z.s, 1, 2) {
 				sb.WriteString("\\\n")
 				z.note("hard-backslash")
 			} else {
 				sb.WriteString(sp(2+z.s.Intn(3)) + "\n")
 				z.note("hard-spaces")
+				z.forceSpaceHard = false
 			}
 		}
 	}
